@@ -137,7 +137,7 @@ def scenario(sim: Sim) -> None:
 
     ch = sim.ch
     ngroups = 1 + ch.weighted("ngroups", [3, 2, 1])
-    nreq = ch.int_between("nreq", 5, 40)
+    nreq = ch.int_between("nreq", 5, sim.scale(40, 45))
     cost = ch.weighted("cost_mode", [2, 1, 3])
     sim.set_cost_mode(cost, ch.draw("cost_seed", 1 << 16) if cost == 2 else 0)
     sim.config.update(ngroups=ngroups, nreq=nreq, cost=cost)
